@@ -27,6 +27,21 @@ Fixpoint add_windows (ops : list op) (outs : list out) : list (list ev) :=
   | _, _ => []
   end.
 
+(* the windows closed by an arrival, each with the arrival that closed it *)
+Fixpoint add_closings (ops : list op) (outs : list out) : list (list ev * ev) :=
+  match ops, outs with
+  | Add e :: r, OWin l :: r' => (l, e) :: add_closings r r'
+  | _ :: r, _ :: r' => add_closings r r'
+  | _, _ => []
+  end.
+
+(* the closing arrival is more than g after the last event of the session it closed *)
+Definition closed_by_gap (g : Z) (p : list ev * ev) : Prop :=
+  match rev (fst p) with
+  | x :: _ => ets (snd p) - ets x > g
+  | [] => True
+  end.
+
 (* what a non-partitioned window still holds *)
 Definition buffered (s : wstate) : list ev :=
   match s with
